@@ -232,7 +232,7 @@ func hostileSpace(thorough bool, fn func(idx int64, t *rm.Type, p *prim, le bool
 	}
 	// (d) per message type: seeds, truncations, substitutions, prefix extremes, unknown keys
 	for _, t := range bind.Types {
-		wireSpace(t, wireOpts{Dev: 1, DevBaseOnly: !thorough, Dev2Base: thorough && encLen(valenum.Distinct(t)) <= 120}, func(w []byte, desc string) bool {
+		wireSpace(t, wireOpts{Dev: 1, DevBaseOnly: !thorough, Big: true, Dev2Base: thorough && encLen(valenum.Distinct(t)) <= 120}, func(w []byte, desc string) bool {
 			fn(idx, t, nil, false, w, desc)
 			idx++
 			return true
